@@ -15,6 +15,10 @@ ASSUMPTIONS = [
     "access through unbounded ranges (A:A, 1:1), address lists and sheet-less addresses is judged on the "
     "implementation by the oracle only (the clipping to the used area is openpyxl/excelwrapper code that "
     "is not modelled)",
+    "CSE array formulas, tables / structured references, formulas returning a reference (OFFSET, INDIRECT) and "
+    "the reference cell of an unbounded range are outside the machine: the streams cse-order, table-order, "
+    "reference-order, cse-range and unbounded-history are judged on the implementation alone, the reference "
+    "being the value of the cell evaluated alone by a fresh compiler (from-scratch compile after writes)",
 ]
 
 
